@@ -348,6 +348,7 @@ func TestC19(t *testing.T) {
 				b, _ := json.Marshal(c)
 				st.NonTrivial(string(b), c)
 			}
+			st.SkipShrink(rt, c)
 			st.Report(rt, runC19(c), c)
 		})
 	})
